@@ -206,14 +206,36 @@ def fast_cover_paths(g, rng, max_paths=None, full=True, max_len=400, want_termin
     return paths, ncov[0], total
 
 
-def replay(ctx, *a, **kw):
-    """graph_replay with the linear-time path cover (the shared one is quadratic on these graphs)"""
-    saved = vlib.cover_paths
-    vlib.cover_paths = fast_cover_paths
+def replay(ctx, spec_dir, module, cfg, tag, replayer, projfn, **kw):
+    """graph_replay with the linear-time path cover (the shared one is quadratic on these graphs) and
+    with the projection + canonical JSON of a state computed once per state instead of once per
+    replayed step (paths share most of their states)."""
+    saved_cover, saved_canon = vlib.cover_paths, vlib.canon
+    projected = {}      # id(parsed state dict, kept alive by the graph) -> projection (kept alive here)
+    owned = set()       # ids of the projections held in `projected`
+    text = {}           # id(projection) -> canonical JSON
+
+    def proj_once(st):
+        r = projected.get(id(st))
+        if r is None:
+            r = projected[id(st)] = (st, projfn(st))
+            owned.add(id(r[1]))
+        return r[1]
+
+    def canon_once(v):
+        k = id(v)
+        t = text.get(k)
+        if t is None:
+            t = saved_canon(v)
+            if k in owned:      # one of ours: stays alive in `projected`, so its id is not reused
+                text[k] = t
+        return t
+
+    vlib.cover_paths, vlib.canon = fast_cover_paths, canon_once
     try:
-        return graph_replay(ctx, *a, **kw)
+        return graph_replay(ctx, spec_dir, module, cfg, tag, replayer, proj_once, **kw)
     finally:
-        vlib.cover_paths = saved
+        vlib.cover_paths, vlib.canon = saved_cover, saved_canon
 
 
 def run(ctx):
@@ -255,7 +277,7 @@ def run(ctx):
     if not q:
         extra.append(("SP_all.cfg", "all6", {"MaxObj": 2, "MaxH": 6}, {}))
         extra.append(("SP_all.cfg", "all_typed5", {"MaxObj": 2, "MaxH": 5, "Typed": "TRUE"}, {}))
-    extra.append(("SP_sim.cfg", "sim", None, {"simulate": "num=%d" % (2000 if q else 20000), "depth": 62, "seed": ctx.seed}))
+    extra.append(("SP_sim.cfg", "sim", None, {"simulate": "num=%d" % (1000 if q else 20000), "depth": 62, "seed": ctx.seed}))
     for (cfg, tag, consts, kw) in extra:
         path = sd + cfg
         if consts:
